@@ -1,15 +1,18 @@
 """Delta debugging over explicit histories (ops are total, so any sub-list runs)."""
 import copy
+import time
 
 
-def ddmin(items, test_many, max_rounds=200):
+def ddmin(items, test_many, max_rounds=200, deadline=None):
     """Minimise *items* (a list) such that test still passes.
 
     test_many(list_of_candidate_lists) -> list of bool (evaluated in parallel).
     """
     n = 2
     rounds = 0
-    while len(items) >= 2 and rounds < max_rounds:
+    def late():
+        return deadline is not None and time.monotonic() > deadline
+    while len(items) >= 2 and rounds < max_rounds and not late():
         rounds += 1
         size = max(1, len(items) // n)
         subsets = [items[i:i + size] for i in range(0, len(items), size)]
@@ -34,7 +37,7 @@ def ddmin(items, test_many, max_rounds=200):
             n = min(len(items), n * 2)
     # final one-by-one pass
     changed = True
-    while changed and len(items) > 1 and rounds < max_rounds:
+    while changed and len(items) > 1 and rounds < max_rounds and not late():
         rounds += 1
         changed = False
         cands = [items[:i] + items[i + 1:] for i in range(len(items))]
@@ -47,7 +50,7 @@ def ddmin(items, test_many, max_rounds=200):
     return items
 
 
-def minimise_program(program, test_many_programs, simplifiers=()):
+def minimise_program(program, test_many_programs, simplifiers=(), deadline=None):
     """ddmin over program['ops'], then optional structure-aware simplifiers.
 
     test_many_programs(list of programs) -> list of bool.
@@ -64,8 +67,10 @@ def minimise_program(program, test_many_programs, simplifiers=()):
         return test_many_programs(ps)
 
     if len(prog.get('ops', [])) > 1:
-        prog['ops'] = ddmin(list(prog['ops']), tm)
+        prog['ops'] = ddmin(list(prog['ops']), tm, deadline=deadline)
     for _ in range(4):
+        if deadline is not None and time.monotonic() > deadline:
+            break
         progressed = False
         for simp in simplifiers:
             cands = list(simp(prog))
